@@ -363,9 +363,22 @@ def routed (kv : List (String × String)) (k dflt : String) : FrontEnd :=
 def handle1 : Handler := fun input impl =>
   let kv := parseKV input
   let v := Pandora.Spec.C16.verdict impl
-  if "SLOW".toList.isPrefixOf impl.toList || "HANG".toList.isPrefixOf impl.toList then
-    -- the case did not finish within the harness's (generous) limit: nothing was observed, nothing is judged
+  if "HANG confirmed".toList.isPrefixOf impl.toList then
+    -- the case did not finish among the other cases AND did not finish when it was run again alone with a generous limit
+    -- while a reference case beside it kept finishing promptly (harness, child.go): the front-ends do not answer
+    ("-", "fail:hang:" ++ impl)
+  else if "SLOW".toList.isPrefixOf impl.toList || "HANG".toList.isPrefixOf impl.toList then
+    -- no result, but not confirmed alone on a responsive machine (or the framework's own watchdog): nothing was
+    -- observed, nothing is judged
     ("-", "skip:inconclusive-timeout")
+  else
+  if (lookup kv "ff").isSome then
+    -- an I/O fault while one of the two files is opened / stat-ed / read / closed (harness faultfs.go): the model of
+    -- `ReadAmmoConfig` (`readAmmoConfig`, `C16_io_fault_refuses`) refuses both files when the front-ends test the
+    -- error of `io.ReadAll` (regenerated); the Spec judges the agreement of the two front-ends as always
+    let checked := Gen.HclYaml.errFlow.contains ("ParseHCLFile", "io.ReadAll", "returned") &&
+      Gen.HclYaml.errFlow.contains ("ParseAmmoConfig", "io.ReadAll", "returned")
+    (if checked then "H=ERR Y== A=-" else "-", v)
   else
   match parseTree (getS kv "d") with
   | none => ("-", "fail:driver:unreadable description")
